@@ -24,6 +24,8 @@ def run(ctx: Ctx) -> None:
     _memo.rule_memo_sound(ctx, ['graphiq/solvers/solver_base.py', 'graphiq/solvers/evolutionary_solver.py'])
     _memo.rule_falsy_zero(ctx, ['graphiq/solvers/solver_base.py', 'graphiq/solvers/evolutionary_solver.py'])
     _memo.rule_arg_names(ctx, ['graphiq/solvers/solver_base.py', 'graphiq/solvers/evolutionary_solver.py'])
+    _memo.rule_fixed_width(ctx, ['graphiq/solvers/solver_base.py', 'graphiq/solvers/evolutionary_solver.py'])
+    _memo.rule_paste_incomplete(ctx, ['graphiq/solvers/solver_base.py', 'graphiq/solvers/evolutionary_solver.py'])
     solvers.rule_rng(ctx)
     solvers.rule_sethash(ctx, [EVO, HYB, SB])
     solvers.rule_hof_copy(ctx)
